@@ -148,7 +148,7 @@ pub(crate) mod verif_value {
                             // a fresh number built here from the planned u64: its tag is a constant for CBMC (a clone
                             // read back through a pointer is not, and then every drop / match on it explores all six
                             // variants of Value: measured > 300 s vs 30 s)
-                            Ok(Evaluated::New(Value::Number(serde_json::Number::from(u))))
+                            Ok(Evaluated::New(Value::Number(ev::outcome_number(i, u))))
                         } else {
                             Ok(Evaluated::New(crate::verif_support::value_clone_shallow(&*out)))
                         }
